@@ -10,7 +10,8 @@ CHUNK = 4
 TOLERANCE = 'sum of junction J lines <= 1e-6*k*max|J| + k*7e-7 (print precision); J vs pulse-current sum 2e-6*max|I| + 7e-7'
 RULE = ('Stars of k=2..4 (thorough: 5) spokes on a hub in EVERY orientation (2^k) and order (k!), and all directed '
         'descriptions of all simple graphs with <=3 (thorough 4) wires on the 5-point lattice (chains, stars, triangles, '
-        'quadrilaterals, second junctions), free space and with one or two grounded ends; the model is solved and the '
+        'quadrilaterals, second junctions), free space and with one or two grounded ends, plus every orientation with each '
+        'wire in turn described elsewhere and moved into place by a per-tag --geo-translate through main(); the model is solved and the '
         'CURRENT DATA block of the report is parsed. Oracle from the harness\' own end clustering: J lines signed into '
         'each junction sum to zero, free ends print E with zeros, each J equals the orientation-signed sum of the '
         'solved pulse currents on that end half-segment. State = undirected structure; transition = one description. '
@@ -42,6 +43,20 @@ def cases(tier, seed):
             segs = [2, 3, 2, 1]
             for w in _desc(es, lambda i: segs[i]):
                 yield dict(env=env, f=f, pts=pts, wires=w, src=es[0])
+            # each wire in turn described elsewhere (far away / with an end on another wire's far end) and brought
+            # into place by a per-tag --geo-translate through main(); every orientation, listing order as enumerated
+            if len(es) >= 2:
+                used = sorted(set(v for e in es for v in e))
+                for flips in itertools.product((0, 1), repeat=len(es)):
+                    w = [(es[i][1], es[i][0], segs[i]) if flips[i] else (es[i][0], es[i][1], segs[i]) for i in range(len(es))]
+                    for k in range(len(es)):
+                        ds = [[3 * lam, 2 * lam, 0. if ground else -lam]]
+                        for q in used:
+                            for e in (0, 1):
+                                if q not in w[k][:2] and abs(pts[q][2] - pts[w[k][e]][2]) < 1e-12:
+                                    ds.append(list(np.array(pts[w[k][e]]) - np.array(pts[q])))
+                        for d in ds:
+                            yield dict(env=env, f=f, pts=pts, wires=w, src=es[0], moved=dict(wire=k, d=d))
     if tier == 'thorough':
         for ground in (False, True):
             P, f, lam = geom.lattice(seed, ground=ground, n=7)
@@ -192,7 +207,16 @@ def evaluate(c):
         return dict(viol=[], skipped='no-interior-pulse', evals=0)
     case['sources'] = [src]
     try:
-        m = geom.build(case)
+        if 'moved' in c:
+            from mcx import cli
+            m, diag = cli.build_moved(case, c['moved']['wire'], c['moved']['d'])
+            if m is None:
+                if 'oth ends' in diag:
+                    return dict(viol=[], skipped='both-ends-grounded', evals=1)
+                return dict(viol=[('REJECTED-moved', 'wire %d moved into place by --geo-translate: %s' % (c['moved']['wire'] + 1, diag))])
+            geom.add_sources(m, [src])
+        else:
+            m = geom.build(case)
     except ValueError as e:
         if 'Both ends' in str(e):
             return dict(viol=[], skipped='both-ends-grounded', evals=1)
@@ -284,5 +308,9 @@ def evaluate(c):
                          'junction %s: printed J lines sum to %s (max %g)' % (jn, tot, mx)))
     und = sorted((min(a, b), max(a, b), n) for a, b, n in c['wires'])
     kmax = max([len(j) for j in junc] + [0])
+    if 'moved' in c:
+        viol = [(a if 'lastonly' in a else a + '-moved', b + ' [wire %d moved into place by --geo-translate=%s]' % (c['moved']['wire'] + 1, c['moved']['d'])) for a, b in viol]
+        return dict(viol=viol[:8], canon='%s|%s|moved%d:%s' % (c['env'], und, c['moved']['wire'], [round(x, 6) for x in c['moved']['d']]),
+                    nontriv=kmax >= 2, outcome='moved,kmax=%d,gnd=%d' % (kmax, len(gnd)), dev=0.0)
     return dict(viol=viol[:8], canon='%s|%s' % (c['env'], und), nontriv=kmax >= 2, outcome='kmax=%d,gnd=%d' % (kmax, len(gnd)),
                 dev=0.0)
